@@ -478,6 +478,19 @@ def emit_roundtrip_py(value: str) -> bool:
     """
     return decode_literal(_FM["py"].format_str_value(value)) == value
 
+def t_error_total(rest: str) -> bool:
+    """
+    pre: 1 <= len(rest) <= @N_ESC@
+    post: _
+    """
+    # the lexer's error hook gets the REST of the input; whatever that text is, the only thing it may do is raise LexerError
+    t = _Tok(); t.value = rest; t.lineno = 1; t.lexpos = 0; t.lexer = _Tok(); t.lexer.lineno = 1
+    try:
+        _LX.t_error(t)
+    except LexerError:
+        return True
+    return False
+
 def vacuity_twin(value: str) -> bool:
     """
     pre: len(value) <= 2
@@ -499,7 +512,7 @@ def work_strings(_: Any) -> Dict[str, Any]:
         hp = sc.path("c13_strings_harness.py")
         with open(hp, "w") as f:
             f.write(src)
-        fns = ["escape_loop_total", "emit_roundtrip_c", "emit_roundtrip_go", "emit_roundtrip_py", "vacuity_twin"]
+        fns = ["escape_loop_total", "emit_roundtrip_c", "emit_roundtrip_go", "emit_roundtrip_py", "t_error_total", "vacuity_twin"]
         lines = {fn: next(i + 2 for i, l in enumerate(src.split("\n")) if l.startswith(f"def {fn}(")) for fn in fns}
         procs = []
         import subprocess
@@ -536,7 +549,8 @@ def work_strings(_: Any) -> Dict[str, Any]:
                     res["inconclusive"].append(f"strings: crosshair counterexample for {fn}({arg}) did not reproduce")
                 else:
                     lang = fn.rsplit("_", 1)[-1]
-                    res["violations"].append({"what": f"strings: {fn}({arg}) fails: the emitted {lang} literal does not denote the declared value ({(rr.stdout + rr.stderr).strip()[-160:]})",
+                    what = "the lexer does not answer with a LexerError" if fn in ("t_error_total", "escape_loop_total") else f"the emitted {lang} literal does not denote the declared value"
+                    res["violations"].append({"what": f"strings: {fn}({arg}) fails: {what} ({(rr.stdout + rr.stderr).strip()[-160:]})",
                                               "payload": {"kind": "string", "function": fn, "arg": arg, "harness": src}, "confirmed": True, "info": {"kind": "emit-string", "key": f"emit-string-{lang}"}})
             else:
                 res["inconclusive"].append(f"strings: crosshair did not confirm {fn} within {tmo}s: {out[-200:]}")
